@@ -569,3 +569,13 @@ LEVEL_NOTE = LEVEL_NOTE + (" Model = code (float path): coq/Gen/FloatRoutesGen.v
                            "proves it equal to Model/FloatRoutes.add_duration_float for every datetime and double (model_is_code_add_duration_float), so a semantic edit of the carry chain "
                            "breaks a proof (self-tested by mutation). Not translated yet: DateTime._add_timedelta_ / _subtract_timedelta's plain branch and DateTime.add(seconds=<float>) itself "
                            "(add_seconds_float stays the hand model around add_duration_float), td_of_mixed (the hand spec of CPython's delta_new on mixed arguments).")
+
+
+TRUSTED = list(TRUSTED) + [
+    "tools/vlib/gens/g55_float_glue.py + coq/Model/FloatGlue.v: the float entry points of DateTime (from_timestamp(<float>), float_timestamp, subtract(seconds=<float>), the plain-timedelta "
+    "branch of _add_timedelta_ / _subtract_timedelta) translated from /repo on every run and proved equal to Model/FloatRoutes.v (model_is_code_from_timestamp_float, model_is_code_timestamp, "
+    "model_is_code_add_plain_timedelta / _sub_plain_timedelta); named primitives (trusted, tied by correspondence): datetime.utcfromtimestamp(<float>) = utcfromtimestamp_float_us + year range, "
+    "datetime.timestamp() = timestamp_float, DateTime.add(seconds=<float>) = add_seconds_float (its core helpers.add_duration is proved equal to its translation)",
+]
+LEVEL_NOTE = LEVEL_NOTE + (" Float entry points: coq/Gen/FloatGlueGen.v is translated on every run (from_timestamp under a float timestamp, float_timestamp, subtract(seconds=<float>), the plain branch of "
+                           "_add_timedelta_ / _subtract_timedelta) and Proofs/FloatGlueFacts.v proves it equal to Model/FloatRoutes.v; DateTime.add under a float `seconds` stays a named primitive.")
